@@ -46,7 +46,8 @@ ASSUMPTIONS = [
 ]
 RULE = {'C13': 'records generated from VERIF_SEED: message kind x tag class (byte boundaries + random) x context '
                'dictionaries (0-6 entries; ASCII, 2/3/4-byte code points, empty strings, long strings) x client id x '
-               'deadline (boundary and random int64) x opaque payload; ~12 records per trace, one class per trace; '
+               'deadline (boundary and random int64) x opaque payload, plus every context of the bounded model domain '
+               '(<= 2 entries over a 1-/2-/3-/4-byte alphabet); ~12 records per trace, one class per trace; '
                'a trace is non-trivial if it has a Tdispatch with a non-empty context, a Tdiscarded or a header '
                'read-back; distinct by canonical record list'}
 
@@ -104,7 +105,7 @@ def models(prop, tier):
     ]
   return [
     dict(module='MuxWireCheck', cfg='MuxWireCheck_t.cfg', workers=12, timeout=3000,
-         what='9 boundary tags, contexts <= 2 entries (keys <= 2 cp), all 2^24 tags for the protocol types'),
+         what='5 boundary tags, contexts <= 2 entries (keys <= 2 cp, 231 entries), all 2^24 tags for the 7 protocol types, all 256 type bytes x boundary tags of every 65536-block'),
     dict(module='MuxWireCheck', cfg='MuxWireCheck_asis.cfg', workers=4, expect_violation='ImplAgrees',
          what='code-shaped _WriteContext as of the snapshot: counterexample'),
     dict(module='MuxWireCheck', cfg='MuxWireCheck_asis_hdr.cfg', workers=4, expect_violation='ImplAgrees',
@@ -156,6 +157,8 @@ def _props(rng, cls, nmax=6):
   while len(d) < n and tries < 50:
     tries += 1
     k = _text(rng, cls)
+    if rng.random() < 0.12:
+      k = '_' + k.lstrip('_')        # a single leading underscore is still a public property
     if k.startswith('__') or k in (CLIENT_ID_KEY, DEADLINE_KEY) or k in d:
       continue
     d[k] = _text(rng, cls)
@@ -206,8 +209,9 @@ def _disp_rec(rng, i, cls, mode):
 
 def cases(prop, tier, seed):
   rng = random.Random(7919 * int(seed) + 13)
-  mult = 1 if tier == 'quick' else 20
-  per = 12
+  quick = tier == 'quick'
+  mult = 1 if quick else 5          # thorough: 5x the traces, 3x the records per trace (fork cost is per trace)
+  per = 12 if quick else 36
   out = []
   # header writer / reader: every protocol type x tag classes x body lengths (systematic + random)
   lens = [0, 1, 3, 255, 256, 65535, 65536, 1 << 24, 1 << 30]
@@ -219,16 +223,37 @@ def cases(prop, tier, seed):
                      'len': lens[(i + rep) % len(lens)] if rng.random() < 0.8 else rng.randint(0, 1 << 20)})
       out.append({'mode': 'direct', 'cls': 'hdr', 'recs': recs})
   # Tdispatch / Tdiscarded, one class per trace
-  plan = [('direct', 'ascii', 30), ('direct', 'uni', 36), ('direct', 'long', 6),
+  plan = [('direct', 'ascii', 24), ('direct', 'uni', 28), ('direct', 'long', 6),
           ('stack', 'ascii', 18), ('stack', 'uni', 22), ('stack', 'long', 4)]
   for mode, cls, n in plan:
     for c in range(n * mult):
-      recs = [_disp_rec(rng, i if c % 3 == 0 else 99, cls, mode) for i in range(per if cls != 'long' else 4)]
+      recs = [_disp_rec(rng, i if c % 3 == 0 else 99, cls, mode) for i in range(per if cls != 'long' else per // 3)]
       sc = {'mode': mode, 'cls': cls, 'recs': recs}
       if mode == 'stack':    # clock offset (s, on the 1/16 lattice) at which the connection lives
         sc['clock'] = rng.choice([0, 1, 1000, 758826000]) + rng.randint(0, 15) / 16.0
         sc['rnd'] = rng.randint(0, 1 << 30)
       out.append(sc)
+  # systematic: the bounded domain of MuxWireCheck (alphabet with 1-, 2-, 3-, 4-byte code points) on the real code
+  alpha = ['A', chr(0xE9), chr(0x20AC), chr(0x1F600)]
+  strs1 = [''] + alpha
+  strs2 = strs1 + [a + b for a in alpha for b in alpha]
+  sysrecs = []
+  for k in strs2:
+    for v in strs1:
+      sysrecs.append([[k, v]])
+  for k1 in alpha:
+    for k2 in alpha:
+      if k1 != k2:
+        for v1 in strs1:
+          for v2 in strs1:
+            sysrecs.append([[k1, v1], [k2, v2]])
+  for i in range(0, len(sysrecs), per):
+    recs = []
+    for j, props in enumerate(sysrecs[i:i + per]):
+      recs.append({'k': 'disp', 'props': props, 'method': 'call', 'blob': [0, 255][:(i + j) % 3], 'client_id': None,
+                   'deadline': None if (i + j) % 4 else {'ts': I64_BOUNDARY[(i + j) % len(I64_BOUNDARY)], 'to': -1},
+                   'tag': TAG_BOUNDARY[(i + j) % len(TAG_BOUNDARY)]})
+    out.append({'mode': 'direct', 'cls': 'systematic', 'recs': recs})
   for cls, n in (('ascii', 6), ('uni', 8)):
     for c in range(n * mult):
       recs = [{'k': 'disc', 'tag': rng.choice([0, 0, 1, 65536, (1 << 24) - 1]), 'which': _tag(rng, i if c == 0 else 99),
@@ -442,8 +467,9 @@ def _run_stack(script, loop):
   if not (open_ar.ready() and open_ar.successful()):
     raise RuntimeError('harness: transport did not open over the fake socket: %r' % (open_ar.exception,))
   ev = []
-  for w in sock.written:                      # the Tping of the open handshake
-    ev.append({'e': 'Ping', 'tag': 1, 'frame': list(bytearray(w)), 'raised': 'none'})
+  for w in sock.written:                      # the Tping of the open handshake (its tag is the transport's choice)
+    if w[4:5] == b'\x41':
+      ev.append({'e': 'Ping', 'tag': -1, 'frame': list(bytearray(w)), 'raised': 'none'})
   tap = Tap(transport)
   ser = ThriftMuxMessageSerializerSink(Prov(tap), None, {SinkProperties.ServiceInterface: Iface,
                                                          SinkProperties.Label: 'svc'})
